@@ -161,9 +161,13 @@ func execOp(op string) (out string) {
 		return execChess(args)
 	case "search", "judge":
 		return execSearch(args)
+	case "hashdiff", "ecache", "dialog", "timed":
+		return execMore(args)
+	case "conc":
+		return execConc(args[1:])
 	case "facts":
 		return "facts=1"
-	case "eval", "evalc", "see", "tt", "order", "time", "go", "prep":
+	case "eval", "evalc", "see", "tt", "order", "time", "go", "gof", "prep":
 		return execEngine(args)
 	}
 	return "bad-op"
